@@ -155,7 +155,12 @@ Module Example.
        i_user := fun _ args => match args with
                                | [VAtom a; VAtom b] => VOrd (Z.compare b a)
                                | _ => VOrd Eq
-                               end |}.
+                               end;
+       i_size_of_self := 0;
+       i_clone := fun v => v;
+       i_clone_from := fun _ v => v;
+       i_into := fun v => v;
+       i_default := fun _ => VUnit |}.
   Definition vA : value := VData (Some "A") [].
   Definition vB (a b c : Z) : value := VData (Some "B") [("0", VAtom a); ("1", VAtom b); ("2", VAtom c)].
   Definition vC (x y : Z) : value := VData (Some "C") [("x", VAtom x); ("y", VAtom y)].
@@ -178,8 +183,8 @@ Module Example.
     intros vn dd l Hin k fa x y Hk mm Hm.
     exists (Some (match x, y with VAtom a, VAtom b => Z.compare b a | _, _ => Eq end)).
     split; [|discriminate].
-    destruct x as [| | | | |a| | | | |]; try reflexivity.
-    destruct y as [| | | | |b| | | | |]; reflexivity.
+    destruct x as [| | | | |a| | | | | |]; try reflexivity.
+    destruct y as [| | | | |b| | | | | |]; reflexivity.
   Qed.
 
   Example hypotheses_hold :
